@@ -160,6 +160,18 @@ def run_generated(fn, text, what, diag=None):
         if name is not None and not re.search(rf"\b{re.escape(name)}\b", text):
             raise Rejected(f"simplification introduced the unsupported function `{name}`") from None
         short = msg.strip().splitlines()[0][:300] if msg.strip() else ""
+        if isinstance(e, AssertionError):
+            tb = e.__traceback__
+            while tb is not None and tb.tb_next is not None:
+                tb = tb.tb_next
+            if tb is not None and tb.tb_frame.f_code.co_filename.replace("\\", "/").endswith("numba/cpython/listobj.py"):
+                # numba cannot lower a list literal with items of different types (an array next to a number the
+                # entry simplified to, arrays of different layouts): loud limitation of the compiler
+                raise Rejected("numba cannot lower a list with items of different types") from None
+        if isinstance(e, TypeError) and isinstance(text, str) and sympy_printer_complexifies(text):
+            raise Rejected("sympy's code printers write cot/sec/csc with a deep rewrite that turns hyperbolic functions "
+                           f"into complex trigonometric ones; {type(e).__name__}: {short[:80]} [loud failure of the "
+                           "third-party library]") from None
         if diag is not None and isinstance(text, str):
             # ``diag`` = (argument names, argument values): does the function that sympy.lambdify alone
             # builds for the simplified text fail in the same way?
@@ -177,6 +189,7 @@ def run_generated(fn, text, what, diag=None):
 
 # ---- attribution of failures to sympy itself -------------------------------------------------
 KEY_SIMPLIFY = "C11:sympy.simplify-in-ExpressionBase.__init__:rewritten-expression-has-different-value"
+KEY_AUTOEVAL = "C11:sympy.parse_expr-automatic-evaluation:parsed-expression-has-different-value"
 _NAME_RE = re.compile(r"[A-Za-z_][A-Za-z_0-9]*")
 
 
@@ -195,13 +208,20 @@ class SympyAlone:
         self.sympy = sympy
         self.stage = None  # stage at which sympy alone raised
         self.exc = None
-        self.parsed = self.simplified = None
+        self.parsed = self.simplified = self.unevaluated = None
+        self.text, self.functions = text, list(functions)
         local = {n: sympy.Symbol(n) for n in symbols}
         local.update({n: sympy.Function(n) for n in functions})
         try:
             with time_limit(2 * SIMPLIFY_LIMIT):
                 self.stage = "parse_expr"
                 self.parsed = parse_expr(text, local_dict=local).subs(sympy.Function("heaviside"), sympy.Heaviside)
+                try:
+                    # the text as written, without sympy's automatic evaluation (Mod(x/pi, -x) -> x/pi + x ...)
+                    self.unevaluated = parse_expr(text, local_dict=local, evaluate=False).subs(
+                        sympy.Function("heaviside"), sympy.Heaviside)
+                except Exception:  # noqa: BLE001
+                    self.unevaluated = None
                 self.stage = "simplify"
                 self.simplified = sympy.simplify(self.parsed)
                 self.stage = None
@@ -241,9 +261,16 @@ class SympyAlone:
         sympy = self.sympy
         subs = {sympy.Symbol(n): sympy.Float(repr(float(v)), 40) for n, v in point.items()}
         try:
-            with time_limit(2 * SIMPLIFY_LIMIT):
+            with time_limit(4 * SIMPLIFY_LIMIT):
                 a = complex(self.parsed.evalf(30, subs=subs))
                 b = complex(self.simplified.evalf(30, subs=subs))
+                if abs(a - b) <= 1e-9 * (abs(scale) + abs(a)):
+                    # simplify is applied again to the simplified expression when an expression object is copied
+                    # (thorough tier: the second application exchanged sin and csc)
+                    again = sympy.simplify(self.simplified)
+                    b2 = complex(again.evalf(30, subs=subs))
+                    if abs(a - b2) > 1e-9 * (abs(scale) + abs(a)):
+                        self.simplified, b = again, b2
         except _Timeout:
             return None
         except Exception:  # noqa: BLE001
@@ -255,6 +282,54 @@ class SympyAlone:
         if abs(a - b) > 1e-9 * (abs(scale) + abs(a)):
             return a, b
         return None
+
+    def autoeval_changed(self, point, scale, real_only=False):
+        """(value of the text as written, value of parse_expr(text)) when sympy's automatic evaluation at
+        parse time changes the value, else None"""
+        if self.parsed is None:
+            return None
+        sympy = self.sympy
+        from sympy.parsing.sympy_parser import parse_expr
+
+        subs = {sympy.Symbol(n): sympy.Float(repr(float(v)), 40) for n, v in point.items()}
+        try:
+            with time_limit(2 * SIMPLIFY_LIMIT):
+                # the text as written AT the point: the names stand for numbers while it is parsed, so nothing is
+                # evaluated symbolically (evaluate=False does not stop the `%` operator from evaluating)
+                local = {n: sympy.Float(repr(float(v)), 40) for n, v in point.items()}
+                local.update({n: sympy.Function(n) for n in self.functions})
+                numeric = parse_expr(self.text, local_dict=local).subs(sympy.Function("heaviside"), sympy.Heaviside)
+                a0 = complex(numeric.evalf(30))
+                a = complex(self.parsed.evalf(30, subs=subs))
+        except _Timeout:
+            return None
+        except Exception:  # noqa: BLE001
+            return None
+        if not (math.isfinite(a0.real) and math.isfinite(a0.imag)):
+            return None
+        if real_only and abs(a0.imag) > 1e-12 * (1 + abs(a0.real)):
+            return None
+        if abs(a0 - a) > 1e-9 * (abs(scale) + abs(a0)):
+            return a0, a
+        return None
+
+
+def sympy_printer_complexifies(text):
+    """does the function sympy.lambdify ALONE generates for the (simplified) text contain the imaginary unit
+    although the text does not?  (`_print_cot/_print_sec/_print_csc` use a deep `rewrite`, which also turns
+    tanh(x) into -1j*tan(1j*x), cosh(x) into cos(1j*x) ...; ufuncs such as floor, hypot, % then fail loudly)"""
+    import inspect
+
+    try:
+        flat = re.sub(r"\[(\d+)\]", r"_\1", text)  # indexed variables as plain symbols
+        alone = SympyAlone(flat, *split_names(flat))
+        if alone.simplified is None:
+            return False
+        syms = sorted(alone.simplified.free_symbols, key=str)
+        src = inspect.getsource(alone.sympy.lambdify(syms, alone.simplified, modules="numpy"))
+    except Exception:  # noqa: BLE001
+        return False
+    return "1j" in src and "1j" not in text
 
 
 def split_names(text, user_funcs=()):
@@ -272,6 +347,7 @@ def split_names(text, user_funcs=()):
                 funcs.add(name)
         elif name not in ("pi", "E", "I", "True", "False"):
             syms.add(name)
+    funcs.discard("abs")  # python's builtin: abs(expr) is sympy's Abs
     return sorted(syms - funcs), sorted(funcs)
 
 
@@ -575,8 +651,10 @@ def attribute_value(vio, text, point=None):
     try:
         syms, funcs = split_names(text)
         alone = SympyAlone(text, syms, funcs)
+        auto = None
         if point is not None:
             changed = alone.value_changed(point, getattr(vio, "scale", 1.0))
+            auto = alone.autoeval_changed(point, getattr(vio, "scale", 1.0))
         else:
             # the failing point is not available in terms of the names of the text (coordinates of a
             # grid, fields): three fixed generic points, judged only where the parsed text is real
@@ -584,10 +662,16 @@ def attribute_value(vio, text, point=None):
             for vals in ([0.7, 1.3, 0.45, 1.9, 0.85], [1.1, 0.6, 1.7, 0.35, 1.45], [0.55, 1.6, 0.9, 1.25, 0.4]):
                 point = {n: vals[i % len(vals)] for i, n in enumerate(syms)}
                 changed = alone.value_changed(point, 1.0, real_only=True)
-                if changed is not None:
+                auto = alone.autoeval_changed(point, 1.0, real_only=True)
+                if changed is not None or auto is not None:
                     break
     except Exception:  # noqa: BLE001
         return vio
+    if auto is not None:
+        a0, a = auto
+        return Violation(
+            f"{vio.detail}; sympy alone: the text as written (evaluate=False) has the value {a0.real!r} at {point}, "
+            f"parse_expr(text) = {alone.parsed} has the value {a.real!r}", key=KEY_AUTOEVAL)
     if changed is None:
         return vio
     a, b = changed
@@ -1043,6 +1127,38 @@ def fd_derivative(ast, env_all, name, full):
     return richardson(h), richardson(h / 8)
 
 
+def sympy_derivative_overflows(text, what, args, expr):
+    """is the derivative that sympy ALONE produces (diff, simplify, lambdify with numpy) non-finite at the
+    arguments?  ``what`` names the variable: ...(d/d<name>) or differentiate('<name>')"""
+    import sympy
+
+    m = re.search(r"d/d(\w+)\)", what) or re.search(r"differentiate\('(\w+)'\)", what)
+    if not m:
+        return False
+    try:
+        alone = SympyAlone(text, *split_names(text))
+        if alone.parsed is None:
+            return False
+        var = sympy.Symbol(m.group(1))
+        syms = [sympy.Symbol(n) for n in expr.vars]
+        with time_limit(4 * SIMPLIFY_LIMIT):
+            # the ways sympy can be asked for it: one derivative, or the gradient simplified as an array
+            cands = [sympy.simplify(sympy.diff(alone.simplified, var))]
+            grad = sympy.simplify(sympy.Array([sympy.diff(alone.simplified, v) for v in syms]))
+            cands.append(grad[syms.index(var)])
+            # (an expression object built from the simplified gradient simplifies it once more)
+            cands.append(sympy.simplify(grad)[syms.index(var)])
+        for d in cands:
+            fn = sympy.lambdify(syms, d, modules="numpy")
+            with np.errstate(all="ignore"):
+                val = np.asarray(fn(*args), dtype=complex)
+            if not np.all(np.isfinite(val)):
+                return True
+        return False
+    except (_Timeout, Exception):  # noqa: BLE001
+        return False
+
+
 def check_derivative(case):
     ast = case["ast"]
     text, alts = G.render_info(ast, case["shape_seed"], case["sig"]["names"])
@@ -1084,6 +1200,9 @@ def check_derivative(case):
                             key=f"derivative:{route}:shape") from None
         tol = 1e-9 * (res.DE + np.abs(res.d)) + 1e-12
         dev = np.abs(g - res.d)
+        if not np.all(np.isfinite(g)) and np.all(np.isfinite(res.d)) and sympy_derivative_overflows(text, what, args, expr):
+            raise Rejected("the derivative as sympy alone writes it (diff + simplify, lambdified) overflows at this "
+                           "point as well (inf/inf): representation chosen by the third-party library")
         if not np.all(dev <= tol):
             i = int(np.argmax(dev / tol))
             raise Violation(
@@ -1178,6 +1297,19 @@ def check_number(case):
             return {"nt": False, "labels": ["masked-near-jump", "loud-at-jump"]}
         raise
     if isinstance(got, complex):
+        if abs(got.imag) <= 64 * G.EPS * abs(got.real):
+            # an imaginary part at round-off level: does sympy's own evalf produce it for this text?
+            try:
+                alone = SympyAlone(text, *split_names(text))
+                import sympy
+
+                val = complex(alone.parsed.evalf(subs={sympy.Symbol(k): v for k, v in envd.items()}))
+                own = val.imag != 0
+            except Exception:  # noqa: BLE001
+                own = False
+            if own:
+                raise Rejected("sympy's evalf alone returns an imaginary part at round-off level for this real text "
+                               "[artefact of the third-party library, the value is right]")
         raise Violation(f"parse_number(`{text}`, {envd}) returned the complex number {got!r}",
                         key="number:complex")
     judged, worst = compare(got, res, "parse_number", f"number:{root_kind(ast)}", TOLK,
